@@ -233,7 +233,7 @@ MatL Jr(const Elem& e, const VecL& t) {
 }
 MatL Jl(const Elem& e, const VecL& t) { VecL m = -t; return Jr(e, m); }
 MatL invGeneral(const MatL& A) {
-  Eigen::Matrix<LD, -1, -1> B = A; Eigen::Matrix<LD, -1, -1> I = B.fullPivLu().inverse(); MatL r = I; return r;
+  Eigen::Matrix<LD, -1, -1> B = A; Eigen::FullPivLU<Eigen::Matrix<LD, -1, -1>> lu(B); lu.setThreshold(0); Eigen::Matrix<LD, -1, -1> I = lu.inverse(); MatL r = I; return r;
 }
 
 // ---------------------------------------------------------------------------------------------
@@ -354,5 +354,7 @@ std::string selfCheck(const Elem& e, unsigned seed) {
   return "";
 }
 
-BigL bigInverse(const BigL& A) { BigL I = A.fullPivLu().inverse(); return I; }
+// threshold 0: Eigen's default rank threshold (eps * size * largest pivot) silently drops pivots of matrices whose entries span 18 orders of
+// magnitude (SGal3 Jacobians with |time*velocity| ~ 1e9) and would return a pseudo-inverse
+BigL bigInverse(const BigL& A) { Eigen::FullPivLU<BigL> lu(A); lu.setThreshold(0); BigL I = lu.inverse(); return I; }
 }  // namespace ref
